@@ -234,6 +234,21 @@ def model_level_clip(run, n):
             pp = pd.DataFrame(rows)
         case = {"clip_stage": True, "election": e.describe(), "correct_from_presidential": pres}
         model = BootstrapElectionModel(settings, pres_predictions=pp)
+        # record what the clip stage is computed from: the unit's clip bounds and the sampled residuals (instance-level wrappers)
+        rec = {}
+        _gb, _st = model._generate_nonreporting_bounds, model._sample_test_errors
+
+        def gb(units, est, _gb=_gb, rec=rec):
+            out = _gb(units, est)
+            rec["b_" + est] = (np.asarray(out[0], dtype=float).copy(), np.asarray(out[1], dtype=float).copy())
+            return out
+
+        def st(*a, _st=_st, rec=rec, **kw):
+            out = _st(*a, **kw)
+            rec["res"] = (np.asarray(out[0], dtype=float).copy(), np.asarray(out[1], dtype=float).copy())
+            return out
+
+        model._generate_nonreporting_bounds, model._sample_test_errors = gb, st
         try:
             with np.errstate(all="ignore"):
                 model.get_unit_predictions(rep, nonrep, "margin", unexpected_units=unexp)
@@ -262,8 +277,63 @@ def model_level_clip(run, n):
                               signature="C06:clip-margin", election=e.to_json())
                 ok = False
                 break
-        if ok:
+        if ok and clip_stage_diff(run, model, rec, nonrep, case, e, rng):
             run.traces += 1
+
+
+def clip_stage_diff(run, model, rec, nonrep, case, e, rng):
+    """the six arrays kept by compute_bootstrap_errors against the definitions regenerated from its source (`Gen.C06.clip_*`, through the
+    Lean driver): draws of the 'true' quantities recomputed from the recorded residuals, bounds and means; estimated draws range-checked
+    against the unit's own clip bounds"""
+    driver = getattr(run, "driver", None)
+    if driver is None or not {"b_results_normalized_margin", "b_turnout_factor", "res"} <= set(rec):
+        return True
+    (yl, yu), (zl, zu), (ry, rz) = rec["b_results_normalized_margin"], rec["b_turnout_factor"], rec["res"]
+    w = nonrep["baseline_weights"].to_numpy(dtype=float).reshape(-1, 1)
+    wz, wyz = np.asarray(model.weighted_z_test_pred, dtype=float), np.asarray(model.weighted_yz_test_pred, dtype=float)
+    e2, e4 = np.asarray(model.errors_B_2, dtype=float), np.asarray(model.errors_B_4, dtype=float)
+    e1, e3 = np.asarray(model.errors_B_1, dtype=float), np.asarray(model.errors_B_3, dtype=float)
+    n, B = e2.shape
+    if not (yl.shape[0] == n == w.shape[0] and ry.shape == e2.shape):
+        run.diff("clip stage: shapes of the recorded bounds / residuals and the stored draws differ", input=case,
+                 impl=[list(yl.shape), list(ry.shape), list(e2.shape)], model="(n, 1), (n, B), (n, B)")
+        return False
+    tol = 1e-9
+    # estimated draws: inside the unit's own bounds (clip_mem)
+    with np.errstate(all="ignore"):
+        zdraw = np.where(w > 0, e3 / np.where(w > 0, w, 1), np.nan)
+        ydraw = np.where(np.abs(e3) > 0, e1 / np.where(np.abs(e3) > 0, e3, 1), np.nan)
+    badz = (zdraw < zl - tol) | (zdraw > zu + tol)
+    bady = (ydraw < yl - tol) | (ydraw > yu + tol)
+    if np.any(badz) or np.any(bady):
+        k = np.unravel_index(np.argmax(badz | bady), e2.shape)
+        run.diff("clip stage: an estimated draw lies outside the unit's own clip bounds (model: clip_y_draw / clip_z_draw)", input=case,
+                 impl={"unit": int(k[0]), "draw": int(k[1]), "y": float(ydraw[k]), "z": float(zdraw[k])},
+                 model={"y": [float(yl[k[0], 0]), float(yu[k[0], 0])], "z": [float(zl[k[0], 0]), float(zu[k[0], 0])]}, election=e.to_json())
+        return False
+    units = [i for i in range(n) if w[i, 0] > 0 and wz[i, 0] != 0]
+    rng.shuffle(units)
+    ops, idx = [], []
+    for i in units[:6]:
+        zbar = wz[i, 0] / w[i, 0]
+        ybar = wyz[i, 0] / wz[i, 0]
+        for b in rng.sample(range(B), min(B, 3)):
+            ops.append({"op": "boot.clip", "yBar": C.rat(float(ybar)), "zBar": C.rat(float(zbar)), "ry": C.rat(float(ry[i, b])),
+                        "rz": C.rat(float(rz[i, b])), "yl": C.rat(float(yl[i, 0])), "yu": C.rat(float(yu[i, 0])), "zl": C.rat(float(zl[i, 0])),
+                        "zu": C.rat(float(zu[i, 0])), "w": C.rat(float(w[i, 0]))})
+            idx.append((i, b))
+    if not ops:
+        return True
+    outs = driver.run(ops)
+    run.count("clip stage draws recomputed by the regenerated definitions", len(ops))
+    for (i, b), o in zip(idx, outs):
+        want = [float(C.unrat(x)) for x in o]
+        got = [float(e2[i, b]), float(e4[i, b]), float(wyz[i, 0]), float(wz[i, 0])]
+        if any(abs(g - m) > 1e-9 * max(1.0, abs(m)) for g, m in zip(got, want)):
+            run.diff("clip stage: stored draws (errors_B_2, errors_B_4, weighted_yz_test_pred, weighted_z_test_pred) vs the definitions "
+                     "regenerated from compute_bootstrap_errors", input=case, row=[int(i), int(b)], impl=got, model=want, election=e.to_json())
+            return False
+    return True
 
 
 def run_checks(run, budget, props):
